@@ -33,7 +33,74 @@ type c15Case struct {
 var c15Forms = []string{"native", "alias", "ptr-alias", "ptr-native", "aliasS", "read-only", "zero", "freed", "nil", "int", "string", "condition", "nil-ptr-alias", "nil-ptr-native", "zero-alias",
 	"nil-pp-native", "nil-pp-alias", "nil-ppp-native", "ptr-to-nil-ptr", "pp-native", "pp-alias"}
 
+// c15RunSelf: the destination is the source itself (the same handle, an alias of it, a pointer to it).
+// "dst holds its previous elements followed by every element of src" then reads old ++ old; the clause
+// "the source is unchanged" cannot apply. Only capacity-limited sources are used, so that a copy loop
+// that feeds on its own output still ends.
+func c15RunSelf(c *Ctx, cs c15Case, count bool) {
+	src := newStackKind(cs.SrcKind, cs.SrcCap)
+	if cs.SrcFIFO {
+		src.SetFIFO(true)
+	}
+	if cs.SrcMtx {
+		src.SetMutex()
+	}
+	vals := patternValues(cs.SrcLen, cs.SrcMask, "s")
+	src.Push(vals...)
+	if src.Len() != cs.SrcLen {
+		return
+	}
+	var dst any = src
+	switch cs.DstForm {
+	case "self-alias":
+		dst = StackAlias(src)
+	case "self-ptr":
+		p := src
+		dst = &p
+	}
+	before := dumpKey(src)
+	if count {
+		c.Evals.Add(1)
+		c.Transitions.Add(1)
+		c.Traces.Add(1)
+	}
+	var got bool
+	if p := noPanic(func() { got = src.Transfer(dst) }); p != "" {
+		c.Violation("panic:"+cs.DstForm, fmt.Sprintf("Transfer onto itself panicked for %s: %s", jsonString(cs), p), cs, cs.SrcLen)
+		return
+	}
+	fits := cs.SrcCap-cs.SrcLen >= cs.SrcLen
+	gotList := contents(src)
+	if fits {
+		want := append(append([]any{}, vals...), vals...)
+		if !got {
+			c.Violation("false-although-fits:"+cs.DstForm, fmt.Sprintf("Transfer onto itself returned false although there is room: %s (now %s)", jsonString(cs), showList(gotList)), cs, cs.SrcLen)
+		} else if !sameList(gotList, want) {
+			c.Violation("wrong-content:"+cs.DstForm, fmt.Sprintf("Transfer onto itself returned true but the stack holds %s, want %s: %s", showList(gotList), showList(want), jsonString(cs)), cs, cs.SrcLen)
+		}
+		if count && cs.SrcLen > 0 {
+			c.Nontrivial(jsonString(cs))
+		}
+		c.Outcome(fmt.Sprintf("ok/%s/%d", cs.DstForm, len(gotList)))
+		return
+	}
+	if got {
+		c.Violation("true-on-failure:"+cs.DstForm+":no-room", fmt.Sprintf("Transfer onto itself returned true although there is no room: %s", jsonString(cs)), cs, cs.SrcLen)
+	}
+	if after := dumpKey(src); after != before {
+		c.Violation("dst-changed-on-failure:"+cs.DstForm+":no-room", fmt.Sprintf("the stack changed although Transfer onto itself must fail: %s\n before %s\n after  %s", jsonString(cs), before, after), cs, cs.SrcLen)
+	}
+	if count {
+		c.Nontrivial(jsonString(cs))
+	}
+	c.Outcome(fmt.Sprintf("fail/%s/false", cs.DstForm))
+}
+
 func c15Run(c *Ctx, cs c15Case, count bool) {
+	if strings.HasPrefix(cs.DstForm, "self") {
+		c15RunSelf(c, cs, count)
+		return
+	}
 	var src stackage.Stack
 	if cs.SrcCap > 0 {
 		src = newStackKind(cs.SrcKind, cs.SrcCap)
@@ -277,6 +344,21 @@ func c15Cases(c *Ctx) []c15Case {
 			}
 		}
 	}
+	// the source as its own destination (capacity-limited sources only)
+	for sl := 0; sl <= maxL; sl++ {
+		for sm := 0; sm < 1<<sl; sm++ {
+			for _, sc := range []int{sl + 1, 2*sl - 1, 2 * sl, 2*sl + 1} {
+				if sc < sl || sc < 1 {
+					continue
+				}
+				for _, form := range []string{"self", "self-alias", "self-ptr"} {
+					for _, mtx := range []bool{false, true} {
+						out = append(out, c15Case{SrcLen: sl, SrcMask: sm, SrcFIFO: sm%2 == 1, SrcCap: sc, SrcKind: "LIST", DstForm: form, DstKind: "LIST", SrcMtx: mtx})
+					}
+				}
+			}
+		}
+	}
 	// rotate the kinds of source and destination through all five (the copy rule does not depend on
 	// the kind, so every kind is sampled evenly at no extra cost)
 	for i := range out {
@@ -290,7 +372,7 @@ func init() {
 	register(&Check{ID: "C15", Engine: "B", Run: func(c *Ctx) {
 		installLockModel()
 		cases := c15Cases(c)
-		c.Rule = "complete product of source (length, nil pattern, LIFO/FIFO, capacity) x destination (length, nil pattern, capacity none..max) x destination form (incl. nil and live pointers to pointers), plus destinations that refuse elements themselves (no-nesting, push policy) and sources holding Stacks, aliases and Conditions; non-trivial = distinct cases with a usable destination and either a non-empty source that fits or a capacity refusal"
+		c.Rule = "complete product of source (length, nil pattern, LIFO/FIFO, capacity) x destination (length, nil pattern, capacity none..max) x destination form (incl. nil and live pointers to pointers), the source itself as destination (handle, alias, pointer; capacity-limited); plus destinations that refuse elements themselves (no-nesting, push policy) and sources holding Stacks, aliases and Conditions; non-trivial = distinct cases with a usable destination and either a non-empty source that fits or a capacity refusal"
 		parallelFor(len(cases), func(i int) { c15Run(c, cases[i], true) })
 		c.States.Store(int64(len(cases)))
 		c.Exhaustive = true
